@@ -55,6 +55,10 @@ def scenario_sources(prop, args):
         "concat3_1op": configs.cfg(1, ["CONCAT3"], [configs.NOQ], [M("SRQ", "a8a", "w8c"), M("SRQ", "a16", "w8c")], [configs.NOQ, M("SRQ", "a8a", "w8c")], share="none"),
         "weights_1op": configs.cfg(1, ["FC", "TCONV", "BMM", "BMMC", "EMB"], configs.MODES_W_RICH + [M("DRQ", "-", "w4c"), M("WO", "-", "w4c"), M("WO", "-", "w4ta"), M("SRQ", "a8a", "w4c")],
                                    [configs.NOQ], configs.IO_RICH, share="none"),
+        # one constant TENSOR (weight or bias) read by two operators: accepted only when both derive the same parameters for it -
+        # whatever is returned must still store bytes that decode under the tensor's own parameters
+        "shared_tensor_2op": configs.cfg(2, ["FC"], [M("SRQ", "a8a", "w8c"), M("SRQ", "a8a", "w8t"), M("WO", "-", "w8c"), M("WO", "-", "w8t")] + ([M("DRQ", "-", "w8c"), M("WO", "-", "w4c")] if big else []),
+                                         [configs.NOQ], [configs.NOQ], share="tensor"),
     }
   for name, c in fams.items():
     r, d = pipecheck.design_run("%s_%s" % (prop, name), c, ["InvParams", "InvBytes"], timeout=7200)
@@ -311,7 +315,72 @@ def main():
             chk.violation("constant %s stores %d bytes for %d elements of %d bits" % (where, len(raw), n, bits), dict(rep, clause="length", tensor=tp["name"]))
             continue
           ent["vec"] = b2.add(vec)
+  # ---- runs that left the predicted path (e.g. returned where a rejection was predicted): there is no reference term, but the
+  # property speaks of the tensor's OWN parameters - every rewritten original constant is decoded under the parameters the output
+  # carries (one step allowed: symmetry is not known here), biases against round(b / own scale)
+  own = []
+  nown_skipped = 0
+  for dr in (drifted if prop in ("C05", "C15") else []):
+    ctx = numeric.Ctx(dr["scn"], dr["impl"])
+    for si, sub in enumerate(dr["scn"]["subs"]):
+      for t, role in enumerate(sub["trole"]):
+        tp = ctx.out_proj["subs"][si]["tensors"][t] if t < len(ctx.out_proj["subs"][si]["tensors"]) else None
+        bits = {"i4": 4, "i8": 8, "i16": 16, "i32": 32, "i64": 64}.get(tp["dt"]) if tp else None
+        if role not in ("c", "w", "b") or not bits or not tp["scale"] or len(tp["scale"]) != len(tp["zp"]):
+          continue
+        data = ctx.const_data([si + 1, t])[0]
+        n = int(data.size)
+        raw = project.buffer_bytes(dr["impl"]["out_bytes"], tp["buf"])
+        nch = len(tp["scale"])
+        qd_ = tp["qd"] if nch > 1 else None
+        if qd_ is not None and (qd_ >= data.ndim or data.shape[qd_] != nch):
+          chk.violation("constant %s: %d scales along dimension %d of shape %s" % (tp["name"], nch, qd_, list(data.shape)),
+                        {"property": prop, "scenario": dr["scn"], "codes": dr["codes"], "seed": args.seed, "clause": "own-params-shape", "tensor": tp["name"]})
+          continue
+        ch = [1] * n if qd_ is None else (np.indices(data.shape)[qd_].flatten() + 1).tolist()
+        if role == "b" and bits >= 32:
+          # own scale as an exact binary fraction m * 2^e, split over the two factors the law multiplies (each below 2^31)
+          sw, okb = [], True
+          for gs in tp["scale"]:
+            fr = F(float(gs))
+            num, den = fr.numerator, fr.denominator
+            k = den.bit_length() - 1
+            if num >= 2 ** 31 or k > 60 or den != 2 ** k:
+              okb = False
+              break
+            sw.append((num, k))
+          if not okb or len(numeric.stored_codes(tp, raw, bits)) != n:
+            nown_skipped += 1
+            continue
+          k1 = min(30, min(k for _, k in sw))
+          codes = numeric.stored_codes(tp, raw, bits)
+          lim = 2 ** (bits - 1) - 1
+          vid = b2.add({"kind": "bias", "b": [numeric.pair(numeric.frac(x)) for x in data.flatten()], "sin": [1, 2 ** k1],
+                        "sw": [[num, 2 ** (k - k1)] for num, k in sw], "ch": [int(c) for c in ch], "codes": [numeric.big(int(c)) for c in codes],
+                        "sat": [bool(abs(int(c)) >= lim) for c in codes]})
+        elif bits <= 16:
+          scs = [F(float(gs)).limit_denominator(1 << 14) for gs in tp["scale"]]
+          if any(sc <= 0 or abs(sc - F(float(gs))) > F(float(gs)) / 10**6 for sc, gs in zip(scs, tp["scale"])):
+            nown_skipped += 1
+            continue
+          vec = {"kind": "dec", "bits": bits, "sym": False, "w": [numeric.pair(numeric.frac(x)) for x in data.flatten()],
+                 "scale": [numeric.pair(sc) for sc in scs], "zp": [int(z) for z in tp["zp"]], "ch": [int(c) for c in ch],
+                 "nbytes": len(raw), "bytes": list(raw) if bits == 4 else [], "codes": [] if bits == 4 else [int(c) for c in numeric.stored_codes(tp, raw, bits)][:n]}
+          if bits != 4 and len(vec["codes"]) != n:
+            chk.violation("constant %s stores %d bytes for %d elements of %d bits" % (tp["name"], len(raw), n, bits),
+                          {"property": prop, "scenario": dr["scn"], "codes": dr["codes"], "seed": args.seed, "clause": "length", "tensor": tp["name"]})
+            continue
+          vid = b2.add(vec)
+        else:
+          continue
+        own.append((vid, dr, tp["name"]))
   out2, r2 = b2.run("%s_dec" % prop)
+  for vid, dr, name in own:
+    o = out2.get(vid)
+    if o is not None and (not o["elems"] or (o["kind"] == "dec" and not o["lenok"])):
+      chk.violation("constant %s of scenario %s (which left the specification's predicted path): element %d of the stored bytes does not decode under "
+                    "the tensor's own parameters to within one step of the original" % (name, dr["key"], o["firstbad"]),
+                    {"property": prop, "scenario": dr["scn"], "codes": dr["codes"], "seed": args.seed, "clause": "decode-own-params", "tensor": name, "element": o["firstbad"]})
   if r2 is not None and (r2.error or len(out2) != len(b2.vecs)):
     chk.machinery("QuantMathExt (dec) failed: %d of %d outputs: %s" % (len(out2), len(b2.vecs), r2.out[-500:]))
   for run in runs:
@@ -357,7 +426,7 @@ def main():
   chk.cov.update({
       "states": states + (r1.distinct if r1 else 0) + (r2.distinct if r2 else 0), "transitions": trans,
       "traces_validated_against_impl": len(runs), "quantized_tensors_compared": ntens, "rewritten_constants_decoded": nconst,
-      "reference_vectors_zs": len(batch.vecs), "decode_vectors": len(b2.vecs), "outcomes": outcomes,
+      "reference_vectors_zs": len(batch.vecs), "own_parameter_decodes_on_unpredicted_runs": len(own), "own_parameter_decodes_skipped": nown_skipped, "decode_vectors": len(b2.vecs), "outcomes": outcomes,
       "evaluations": len(runs), "distinct_nontrivial": len(runs),
       "rule": "scenario families: " + ("constants shared by tensor / by buffer within and across subgraphs x every assignment of modes to the sharers"
                                        if prop == "C15" else
